@@ -151,6 +151,100 @@ theorem tamper_detected (key : Nat) (ds : List (Bytes × Bytes))
       (by simpa using hl)
     rwa [← hwire] at this
 
+/-! ### the handshake's own frames are part of the attacker's wire
+
+The encrypted part of the handshake (signature frame, meta frame) uses the first nonces of each
+direction; the session continues with the same states. An on-path attacker who recorded those frames
+can splice them into the session — they are just OLD frames of the same stream, covered by the
+theorems below exactly like any other replay. -/
+
+/-- GENERATED FACT: `NewHandshake` returns the very `EncryptedConn` whose AEAD states carried the encrypted
+handshake messages (one `&EncryptedConn{…}`, two `newInternalState`, bare `return` of the named result),
+and there are two such messages per direction. When false, session frame #i would reuse key and nonce
+of handshake frame #i; the theorems below then no longer describe the code and the Go oracle
+(`C17:handshake-frame-replayed-as-data`) supplies the replay. -/
+theorem session_keeps_handshake_state :
+    Gen.Transport.sessionKeepsHandshakeState = true ∧ Gen.Transport.handshakeFrames = 2 := by decide
+
+/-- **stream_exact**, for a session that starts after `k` handshake frames -/
+theorem stream_exact_after_handshake (key k : Nat) (ops : List Op) :
+    (∀ r ∈ (run (Dir.afterHandshake key k) ops).1, ∀ e, r ≠ .err e) ∧
+    delivered (run (Dir.afterHandshake key k) ops).1 <+: written ops ∧
+    ((run (Dir.afterHandshake key k) ops).2.ch.wire = [] → (run (Dir.afterHandshake key k) ops).2.r.unread = [] →
+      delivered (run (Dir.afterHandshake key k) ops).1 = written ops) := by
+  have h := run_inv (Inv.afterHandshake key k) ops
+  simp only [List.nil_append] at h
+  exact ⟨h.2, h.1.prefix, fun hw hu => h.1.complete hw hu⟩
+
+/-- **tamper_never_misdelivers**, session after handshake: `hs` are the writes of the encrypted handshake
+(already consumed by the reader), `ds` the session's writes; the attacker's wire may contain ANY honest
+frame of the connection, handshake frames included. Whatever is delivered is a prefix of the SESSION's bytes. -/
+theorem tamper_never_misdelivers_after_handshake (key : Nat) (hs ds : List (Bytes × Bytes))
+    (hlen : (chunksOf (hs ++ ds)).length ≤ 18446744073709551615)
+    (W : List Wire) (hW : ∀ w ∈ W, AttackerItem key (honest key (hs ++ ds)) w) (closed : Bool) (ns : List Nat) :
+    delivered (readMany ⟨key, nonceAt 0 (chunksOf hs).length, []⟩ ⟨W, closed⟩ ns).1 <+: (ds.map (·.2)).flatten := by
+  have hS := (writeMany_sealed ⟨key, 0⟩ (hs ++ ds)).1
+  have hF : Fresh 0 (chunksOf (hs ++ ds)).length := fresh_of_bound 0 _ (by simpa using hlen)
+  obtain ⟨j', h⟩ := readMany_inv hS hF (RInv.session key hs ds) ⟨W, closed⟩ hW ns
+  have hp := h.prefix
+  rw [chunksOf_append, List.flatten_append, List.prefix_append_right_inj] at hp
+  rwa [chunksOf_flatten] at hp
+
+/-- **tamper_detected**, session after handshake: with `k` the length of the longest prefix of the wire
+that is the session's own unmodified in-order frame sequence, a caller that stops at the first error
+receives only the plaintext of those `k` session frames, an error only after all of it, and never a
+wait at the deviation — in particular a recorded handshake frame at ANY session position is an error. -/
+theorem tamper_detected_after_handshake (key : Nat) (hs ds : List (Bytes × Bytes))
+    (hlen : (chunksOf (hs ++ ds)).length ≤ 18446744073709551615)
+    (W : List Wire) (hW : ∀ w ∈ W, AttackerItem key (honest key (hs ++ ds)) w) (closed : Bool) (ns : List Nat) :
+    let k0 := (chunksOf hs).length
+    let k := lcp W ((honest key (hs ++ ds)).drop k0)
+    let out := (readUntilErr ⟨key, nonceAt 0 k0, []⟩ ⟨W, closed⟩ ns).1
+    delivered out <+: plainOfFirst ds k ∧
+    (∀ e, .err e ∈ out → delivered out = plainOfFirst ds k) ∧
+    (k < W.length → .blocked ∉ out) := by
+  intro k0 k out
+  have hS := (writeMany_sealed ⟨key, 0⟩ (hs ++ ds)).1
+  have hF : Fresh 0 (chunksOf (hs ++ ds)).length := fresh_of_bound 0 _ (by simpa using hlen)
+  have hR := RInv.session key hs ds
+  have hHl := hS.length_eq
+  have hk : k0 + k ≤ (chunksOf (hs ++ ds)).length := by
+    have := lcp_le_right W ((honest key (hs ++ ds)).drop k0)
+    simp only [List.length_drop] at this
+    have h0 : k0 ≤ (chunksOf (hs ++ ds)).length := by simp [k0, chunksOf_append]
+    have hHl' : (honest key (hs ++ ds)).length = (chunksOf (hs ++ ds)).length := hHl
+    rw [hHl'] at this
+    omega
+  have hsplit := lcp_take W ((honest key (hs ++ ds)).drop k0)
+  have hA' : ∀ w ∈ W.drop k, AttackerItem key (honest key (hs ++ ds)) w := fun w hw => hW w (List.mem_of_mem_drop hw)
+  have hdev : ∀ w, (W.drop k).head? = some w → (honest key (hs ++ ds))[k0 + k]? ≠ some w := by
+    intro w hw
+    have := lcp_dev W ((honest key (hs ++ ds)).drop k0) w hw
+    rwa [List.getElem?_drop] at this
+  have hne : k < W.length → W.drop k ≠ [] := fun h he => by
+    have := congrArg List.length he
+    simp only [List.length_drop, List.length_nil] at this; omega
+  have hwire : W = ((honest key (hs ++ ds)).take (k0 + k)).drop k0 ++ W.drop k := by
+    rw [List.drop_take, Nat.add_sub_cancel_left]; exact hsplit
+  have spec := readUntilErr_spec hS hF (k0 + k) hk (W.drop k) hA' hdev closed ns hR (Nat.le_add_right _ _)
+  rw [← hwire] at spec
+  obtain ⟨⟨j', hj', hR'⟩, h2, h3⟩ := spec
+  have htake := take_session hs ds k
+  refine ⟨?_, ?_, fun h => h3 (hne h)⟩
+  · -- delivered so far, after the handshake bytes, stays within the first k session frames
+    have hp : (chunksOf hs).flatten ++ delivered out <+: ((chunksOf (hs ++ ds)).take (k0 + k)).flatten := by
+      refine List.IsPrefix.trans ⟨_, hR'.acc⟩ ?_
+      have hm : ((chunksOf (hs ++ ds)).take (k0 + k)) = ((chunksOf (hs ++ ds)).take (k0 + k)).take j' ++ ((chunksOf (hs ++ ds)).take (k0 + k)).drop j' :=
+        (List.take_append_drop _ _).symm
+      rw [List.take_take, Nat.min_eq_left hj'] at hm
+      exact ⟨(((chunksOf (hs ++ ds)).take (k0 + k)).drop j').flatten, by rw [← List.flatten_append, ← hm]⟩
+    rw [htake, List.prefix_append_right_inj] at hp
+    exact hp
+  · intro e he
+    have := h2 e he
+    rw [htake] at this
+    exact List.append_cancel_left this
+
 /-- non-vacuity of `tamper_detected`: an intermediary flips a bit in the second of three frames; the
 hypotheses hold (`faults_are_attacker_wire`), the intact prefix is exactly one frame long. -/
 example : lcp [Wire.sealed 7 0 [1], .garbage 0, .sealed 7 2 [3]] [Wire.sealed 7 0 [1], .sealed 7 1 [2], .sealed 7 2 [3]] = 1 := by
